@@ -2,6 +2,7 @@ package flood
 
 import (
 	"fmt"
+	"net"
 	"testing"
 
 	vp "github.com/postalsys/muti-metroo/internal/zzvp"
@@ -107,5 +108,54 @@ func TestVP_C15_MaxHops(t *testing.T) {
 			cls = append(cls, "link-came-up-after-routes-were-learned")
 		}
 		st.Case(fmt.Sprintf("%s n=%d %v maxHops=%d routes=%s late=%v", shape, n, edges, maxHops, routes, late), beyond, cls...)
+	})
+}
+
+// TestVP_C15_LongChain covers the upper end of the documented range (max_hops up to 255,
+// where path and seen-by lists reach the one-byte counts of the wire format): a chain a few
+// nodes longer than the limit, one origin at its head; nothing of the origin may be stored
+// beyond the limit and everything must be stored within it.
+func TestVP_C15_LongChain(t *testing.T) {
+	st := vp.NewStats("C15", "longchain", "vpsim chains of max_hops+2..max_hops+6 nodes with max_hops drawn from 1-255 (half of the cases 250-255), origin at the head, links up before or after the first announcement; nodes beyond the limit hold nothing of the origin, nodes within hold everything; non-trivial = max_hops >= 200")
+	defer st.Flush()
+	rapid.Check(t, func(t *rapid.T) {
+		var maxHops int
+		if rapid.Bool().Draw(t, "top") {
+			maxHops = rapid.IntRange(250, 255).Draw(t, "maxHops")
+		} else {
+			maxHops = rapid.IntRange(1, 255).Draw(t, "maxHops")
+		}
+		n := maxHops + rapid.IntRange(2, 6).Draw(t, "beyond")
+		s, knob := vpNewSim(n, maxHops)
+		defer s.stop()
+		if !knob {
+			t.Fatalf("VPFAIL C15 the flooder has no hop-limit setting at all (FloodConfig.MaxHops missing): routing.max_hops cannot be enforced")
+		}
+		_, nw, _ := net.ParseCIDR("10.0.0.0/8")
+		s.nodes[0].mgr.AddLocalRoute(nw, 0)
+		// the presence route travels only in announcements, not in the link-up replay, so the
+		// origin always announces once the chain is up; optionally the chain is drained first
+		late := rapid.Bool().Draw(t, "drainReplayFirst")
+		for i := 1; i < n; i++ {
+			s.connect(i-1, i)
+		}
+		if late && !s.drain(8*n*n) {
+			t.Fatalf("VPFAIL C15 no quiescence on a chain of %d with max_hops=%d", n, maxHops)
+		}
+		s.announce(0)
+		if !s.drain(8 * n * n) {
+			t.Fatalf("VPFAIL C15 no quiescence on a chain of %d with max_hops=%d", n, maxHops)
+		}
+		want := len(s.originated(0))
+		for i := 1; i < n; i++ {
+			got := s.learned(i, 0)
+			if i > maxHops && len(got) > 0 {
+				t.Fatalf("VPFAIL C15 max_hops=%d but node %d of a chain of %d, %d hops from the origin, stores %s (recorded path of %d hops)", maxHops, i, n, i, got[0].key, len(got[0].path))
+			}
+			if i <= maxHops && len(got) < want {
+				t.Fatalf("VPFAIL C15 max_hops=%d cut off node %d which is only %d hops from the origin (holds %d of %d routes)", maxHops, i, i, len(got), want)
+			}
+		}
+		st.Case(fmt.Sprintf("chain n=%d maxHops=%d late=%v", n, maxHops, late), maxHops >= 200, fmt.Sprintf("maxHops-%d..%d", maxHops/50*50, maxHops/50*50+49))
 	})
 }
